@@ -33,6 +33,9 @@ type Program struct {
 	mods      map[*ssa.Function]map[string]bool
 	modBusy   map[*ssa.Function]bool
 	modCycleHits int
+	modFinal map[*ssa.Function]bool
+	modVisited map[*ssa.Function]bool
+	modChanged bool
 	usedIntrinsics map[string]bool
 	missing []string
 	implCache map[string][]implRec
